@@ -29,7 +29,8 @@ ASSUMPTIONS = [
     "member ids are distinct (the group coordinator assigns them) and a topic's partition list has no repeated id: hypotheses of the C15 theorems and "
     "the condition under which the monitors are evaluated (scenarios violating them are still compared model-vs-code)",
     "C15_codec_roundtrip / C15_in_range_total: partition ids in int32, topic names ASCII and at most 32767 characters, fewer than 2^31 topics/partitions",
-    "C15_leader_glue: client._load_topic_partitions answers with an entry for every topic it was asked for (its documented contract)",
+    "C15_leader_glue: _load_topic_partitions is the modelled retry loop (Afkak.Assign.loadTopicPartitions, compared with the real method on every run); "
+    "C15_leader_outcomes assumes nothing about the loader's answer",
 ]
 
 CORPUS = os.path.join(core.VERIF, "corpus", "assign")
@@ -179,6 +180,14 @@ def gen_assign(rng):
         subs[rng.randrange(nm)].append(bad)
         tp.append([bad, [0, 1]])
         tags.append("non-ascii-topic")
+    if rng.random() < 0.12:
+        # a subscription list naming a topic more than once (afkak sends the list verbatim), of any length up to
+        # the number of distinct topics of the group and beyond
+        k = rng.randrange(nm)
+        if subs[k]:
+            subs[k] = list(subs[k]) + [rng.choice(subs[k]) for _ in range(rng.randrange(1, 4))]
+            rng.shuffle(subs[k])
+            tags.append("topic-repeated-in-subscription")
     members = [[i, s] for i, s in zip(ids, subs)]
     if rng.random() < 0.03 and nm >= 2:
         members.append([members[0][0], rng.sample(topics, rng.randrange(0, len(topics) + 1))])  # repeated member id
@@ -399,6 +408,10 @@ def gen_history(rng):
         members = [[leader, list(leader_topics)]] + [[i, list(sub)] for i, sub in sorted(others.items())]
         rng.shuffle(members)
         gens.append({"members": members, "cluster": [[t, list(ps)] for t, ps in sorted(cluster.items())]})
+    if rng.random() < 0.12:  # in the last generation the loader's answer leaves topics out (breaks its contract)
+        last = gens[-1]
+        pool = [t for t, _ in last["cluster"]]
+        last["loader_omits"] = rng.sample(pool, rng.randrange(1, min(2, len(pool)) + 1))
     return {"kind": "generations", "leader": leader, "leader_topics": leader_topics, "gens": gens}
 
 
@@ -420,7 +433,19 @@ def run_history_sc(proto, sc, batch, res):
     for g, (gen, rec) in enumerate(zip(sc["gens"], recs), 1):
         label = "generation %d of the history" % g
         members, tp = gen["members"], gen["cluster"]
+        omits = gen.get("loader_omits") or []
+        loaded = [e for e in tp if e[0] not in omits]  # what _load_topic_partitions answers in this generation
         ttok = tmap(tp)
+        if omits:
+            res.count("history_loader_omits_topic")
+        if omits and rec["encs"] is None and rec["wire"] is not None and rec["escaped"] is not None:
+            # the exception that left _join_and_sync vs the model's leaderAssign on the loader's (partial) answer
+            batch.add("leader %s %s" % (";".join(tstr(i) + ":" + hx(b) for i, b in rec["wire"]), tmap(loaded)), exc_line(rec["escaped"]), ("corr", sc, "leader@%d(escaped)" % g))
+            res.count("history_need_escapes_join_and_sync")
+            if rec["idle"]:
+                res.count("history_leader_idle_after_escape")
+            res.nontrivial(["history-escape", sc["leader"], sc["gens"][:g]])
+            continue
         if rec["encs"] is None or rec["wire"] is None:
             res.count("history_generation_without_sync")
             wire = rec["wire"] or [(i, bytes(proto.join_group_protocols(list(sub))[0].protocol_metadata)) for i, sub in members]
@@ -428,7 +453,7 @@ def run_history_sc(proto, sc, batch, res):
             continue
         encs = rec["encs"]
         wtok = ";".join(tstr(i) + ":" + hx(b) for i, b in rec["wire"])
-        batch.add("leader %s %s" % (wtok, ttok), "enc " + ";".join(tstr(i) + ":" + hx(b) for i, b in encs), ("corr", sc, "leader@%d" % g))
+        batch.add("leader %s %s" % (wtok, tmap(loaded)), "enc " + ";".join(tstr(i) + ":" + hx(b) for i, b in encs), ("corr", sc, "leader@%d" % g))
         res.count("history_loads_per_generation=%d" % len(rec["loads"] or []))
         if prev is not None and prev != tp:
             res.count("history_partition_map_changed")
@@ -452,6 +477,53 @@ def run_history_sc(proto, sc, batch, res):
         if g >= 2:
             res.nontrivial(["history", sc["leader"], sc["gens"][:g]])
     res.sample({"scenario": sc, "impl_loads": [r["loads"] for r in recs]}, limit=5)
+
+
+def gen_loader(rng):
+    """_load_topic_partitions: which topics are asked for, and the successive metadata replies (topics omitted, in
+    error, without partitions, extra topics)."""
+    pool = rng.sample(TOPICS, 4)
+    asked = rng.sample(pool[:3], rng.randrange(1, 4))
+    if rng.random() < 0.1:
+        asked.append(asked[0])  # the same topic asked twice
+    replies = []
+    for k in range(rng.randrange(1, 5)):
+        good = rng.random() < 0.35 + 0.2 * k
+        reply = []
+        for t in rng.sample(pool, len(pool)):
+            if t in asked and good:
+                reply.append([t, 0, rng.sample(range(0, 16), rng.randrange(1, 6))])
+            elif rng.random() < 0.75:
+                err = rng.choice([0, 0, 0, 3, 5])
+                reply.append([t, err, rng.sample(range(0, 16), rng.randrange(0, 5)) if err == 0 else []])
+        replies.append(reply)
+    return {"kind": "loader", "asked": asked, "replies": replies}
+
+
+def run_loader_sc(sc, batch, res):
+    """The REAL KafkaClient._load_topic_partitions vs the model, and the contract the leader's glue relies on."""
+    from harness.lib import assign_leader
+
+    res.evaluations += 1
+    asked, replies = sc["asked"], sc["replies"]
+    rtok = "/".join("-" if not r else "|".join("%s=%d:%s" % (tstr(t), e, tints(ps)) for t, e, ps in r) for r in replies)
+    atok = ",".join(tstr(t) for t in asked)
+    try:
+        kind, val, n = assign_leader.run_loader(asked, [[(t, e, ps) for t, e, ps in r] for r in replies])
+    except Exception as e:  # noqa: BLE001
+        kind, val, n = "error", "driver %s: %s" % (type(e).__name__, e), 0
+    if kind == "snap":
+        line = "snap %s after %d" % (tmap(val), n)
+        batch.add("mon-load %s %s" % (atok, tmap(val)), None, ("mon-load", sc, None))
+        res.nontrivial(["loader", asked, replies])
+    elif kind == "pending":
+        line = "pending"
+    else:
+        line = "error %s" % val
+    res.count("loader_outcome=%s" % kind)
+    if any(t not in [x[0] for x in replies[0]] for t in asked):
+        res.count("loader_first_reply_omits_asked_topic")
+    batch.add("load %s %s" % (atok, rtok), line, ("corr", sc, "load"))
 
 
 def settle(batch, got, res, trace=None):
@@ -482,6 +554,10 @@ def settle(batch, got, res, trace=None):
                         res.monitor_failures.append({"what": "%s: %s" % (what, text), "scenario": sc, "tags": ["gen-" + tag]})
                     else:
                         res.monitor_failures.append({"what": text, "scenario": sc, "tags": [tag]})
+        elif kind == "mon-load":
+            res.traces_validated += 1
+            if g1 != "ok":
+                res.monitor_failures.append({"what": "_load_topic_partitions fired with a snapshot that lacks a requested topic (the leader's second generate_assignments then raises _NeedTopicPartitions outside its handler: no SyncGroup, member idle)", "scenario": sc, "tags": ["loader-contract"]})
         elif kind == "mon-own":
             if g1 != "ok":
                 res.monitor_failures.append({"what": "member %r decodes something else than it was assigned" % what, "scenario": sc, "tags": ["decodes-own"]})
@@ -687,6 +763,8 @@ def run_scenarios(scs, res, model, trace=None):
             run_codec(proto, sc, batch, res)
         elif sc["kind"] == "generations":
             run_history_sc(proto, sc, batch, res)
+        elif sc["kind"] == "loader":
+            run_loader_sc(sc, batch, res)
         else:
             run_meta(sc, batch, res)
     if batch.lines:
@@ -749,6 +827,7 @@ def corpus_scenarios():
 def generate(rng, n_assign, n_codec, n_hist=0):
     scs = [gen_assign(rng) for _ in range(n_assign)]
     scs += [(gen_history(rng), []) for _ in range(n_hist)]
+    scs += [(gen_loader(rng), []) for _ in range(n_hist // 2)]
     scs += [(gen_codec(rng) if k % 2 == 0 else gen_meta(rng), []) for k in range(n_codec)]
     return scs
 
@@ -823,7 +902,10 @@ RULE = (
     "codec case that produced/parsed a non-empty map, or a leader history of >= 2 generations; distinct = by content hash. histories: one REAL "
     "Coordinator is the leader for 2..4 generations (fake client, real codecs, rebalance triggered through a failing heartbeat); between generations members "
     "join/leave/are relisted, topics gain or lose partitions, new topics appear; per generation the leader's SyncGroup assignments are compared with the model "
-    "and the monitors are evaluated on what the members decode against the cluster's partition map of THAT generation. quick: corpus + 5000 assign + 2500 codec + 600 histories; thorough: 64 shards x (12000 + 5000 + 1500) in up to 16 "
+    "and the monitors are evaluated on what the members decode against the cluster's partition map of THAT generation; in some histories the loader's answer "
+    "of the last generation leaves topics out (the exception leaving _join_and_sync is compared with the model's). loader: the REAL "
+    "KafkaClient._load_topic_partitions is driven with successive metadata replies (topics omitted, in error, without partitions, extra topics) vs the "
+    "model, and the contract the leader's glue needs (an entry with >= 1 partition for every topic asked) is evaluated on every snapshot it returns. quick: corpus + 5000 assign + 2500 codec + 600 histories; thorough: 64 shards x (12000 + 5000 + 1500) in up to 16 "
     "processes plus a bounded-exhaustive enumeration of small inputs (not a complete enumeration of the input space: exhaustive=false)."
 )
 
@@ -843,7 +925,7 @@ def run(ctx, res):
     for d in res.disagreements[:3]:
         if isinstance(d.get("scenario"), dict) and d["scenario"].get("kind") == "assign":
             d["shrunk"] = shrink(d["scenario"])
-    res.extra["branch_histogram"] = {k: v for k, v in res.hist.items() if k.startswith(("outcome=", "leader_", "history_", "private_", "codec_", "meta_", "skip_", "cycle_", "monitor_"))}
+    res.extra["branch_histogram"] = {k: v for k, v in res.hist.items() if k.startswith(("outcome=", "leader_", "loader_", "history_", "private_", "codec_", "meta_", "skip_", "cycle_", "monitor_"))}
 
 
 def search(ctx, res, broken):
